@@ -8,17 +8,17 @@ import Asn1cModel.Props.C05
 
   * C04: every decoder, in every saved state, on every input reports consumed ≤ size
     (`stream_consumed_le`); termination is totality of `dec`; the return code is one of the three `Rc`.
-  * C05: for descriptor trees in `inDomain` (every context-carrying node has an effective tag chain of at
-    most one tag; `tag2el` points into the member table) the decoder obeys the restart laws up to the consumed
-    count reported together with RC_FAIL (`stream_lawfulRc`), hence every chunk schedule ends with the same
-    return code and – unless that is RC_FAIL – the same structure and total consumed count as one-shot
-    decoding (`stream_chunked_eq_oneshot`).  The primitive decoders obey the exact laws of Impl/Restart.lean
-    (`prim_lawful`).
-  * Outside the domain the unchanged C code is NOT restartable: `ber_check_tags` keeps
-    `expect_00_terminators` and `limit_len` in locals, so a restart between two tags of a chain forgets the
-    outer end-of-contents octets (`F160_chunked_ne_oneshot`, `F160_proper_prefix_ok`); and the consumed
-    count reported with RC_FAIL depends on the chunking (`fail_consumed_depends_on_chunking`), which is why
-    the exact `Lawful` does not hold for the constructed decoders (`seq_not_lawful`).
+  * C05: for descriptor trees in `inDomain` (`tag2el` points into the member table: what the compiler emits) and
+    tag chains of ANY length the decoder obeys the restart laws up to the consumed count reported together with
+    RC_FAIL (`stream_lawfulRc`), hence every chunk schedule ends with the same return code and – unless that is
+    RC_FAIL – the same structure and total consumed count as one-shot decoding (`stream_chunked_eq_oneshot`).
+    The primitive decoders obey the exact laws of Impl/Restart.lean (`prim_lawful`).
+  * `ber_check_tags` keeps `expect_00_terminators` and `limit_len` in locals; since the repair of finding F160 it
+    reports RC_WMORE with nothing consumed and the saved step untouched, so a chain is consumed whole or not at all
+    and a restart re-reads it from its first tag.  The former witnesses of F160 (a chunk boundary between the two
+    tags of `[1] EXPLICIT SEQUENCE`) are theorems now: `F160_chunked_eq_oneshot`, `F160_proper_prefix_more`.
+  * The consumed count reported with RC_FAIL depends on the chunking (`fail_consumed_depends_on_chunking`), which
+    is why the exact `Lawful` does not hold for the constructed decoders (`seq_not_lawful`).
 -/
 namespace Asn1c.Props.C05Stream
 open Asn1c Asn1c.Impl.BerTlv Asn1c.Impl.Restart Asn1c.Impl.BerStream Asn1c.Proofs.BerStream
@@ -120,19 +120,19 @@ theorem prim_chunked_eq_oneshot (tags : List Tag) (k : PKind) (tm : Int) (c : By
   simpa using this
 
 /-- the restart laws for every decoder of an `inDomain` descriptor tree, from every saved state -/
-theorem stream_lawfulRc (td : TD) (tm : Int) (h : inDomain td tm = true) : LawfulRc (⟨dec td tm⟩ : Dec Node) :=
+theorem stream_lawfulRc (td : TD) (tm : Int) (h : inDomain td = true) : LawfulRc (⟨dec td tm⟩ : Dec Node) :=
   dec_lawfulRc td tm h
 
 /-- **C05 for `ber_decode`**: on an `inDomain` descriptor tree every chunk schedule, fed by the manual's
     protocol, ends with the same return code as presenting everything at once, and – unless that is RC_FAIL –
     with the same decoded structure and the same total consumed count -/
-theorem stream_chunked_eq_oneshot (td : TD) (h : inDomain td 0 = true) (c : Bytes) (cs : List Bytes) (s : Node) :
+theorem stream_chunked_eq_oneshot (td : TD) (h : inDomain td = true) (c : Bytes) (cs : List Bytes) (s : Node) :
     ResEq (feed (berDec td) s [] 0 (c :: cs)) ((berDec td).step s (c :: cs).flatten) := by
   have := chunked_eq_oneshot_rc (berDec td) (stream_lawfulRc td 0 h) (c :: cs) (by simp) s [] 0
   simpa [shiftR] using this
 
 /-- a chunked run that ends with RC_OK decoded what the one-shot run decodes and consumed as much -/
-theorem stream_chunked_ok (td : TD) (h : inDomain td 0 = true) (c : Bytes) (cs : List Bytes) (s : Node)
+theorem stream_chunked_ok (td : TD) (h : inDomain td = true) (c : Bytes) (cs : List Bytes) (s : Node)
     (hok : ((berDec td).step s (c :: cs).flatten).2.1 = .ok) :
     feed (berDec td) s [] 0 (c :: cs) = (berDec td).step s (c :: cs).flatten := by
   have h1 := stream_chunked_eq_oneshot td h c cs s
@@ -143,7 +143,7 @@ def exSeq : TD :=
   .seq [⟨0, 16⟩] [.prim [⟨0, 1⟩] [⟨0, 1⟩] .boolean, .prim [⟨0, 4⟩] [⟨0, 4⟩] (.ostr false)]
     [⟨⟨0, 1⟩, 0, 0, false⟩, ⟨⟨0, 4⟩, 0, 1, false⟩] (-1) [⟨⟨0, 1⟩, 0, 0, 0⟩, ⟨⟨0, 4⟩, 1, 0, 0⟩]
 
-example : inDomain exSeq 0 = true := by decide
+example : inDomain exSeq = true := by decide
 
 /-! ### refinement of the reference decoder -/
 
@@ -157,7 +157,7 @@ theorem prim_refines_decBER (t : Tag) (p : Asn1c.L2.Prim) (k : PKind) (hk : kind
     ∃ pv, dec (.prim [t] [t] k) 0 .none bs = (.prim (some pv), .ok, bs.length - rest.length) ∧ pvVal pv = v :=
   Asn1c.Proofs.BerStream.prim_refines_decBER t p k hk fuel bs hwf v rest h hfit
 
-/-! ### counter-examples: where the unchanged C code is not restartable -/
+/-! ### the former witnesses of finding F160: a chunk boundary inside a tag chain -/
 
 /-- `T ::= [1] EXPLICIT SEQUENCE { a BOOLEAN }` as compiled by asn1c (tags `[1]`, `[UNIVERSAL 16]`) -/
 def tdF160 : TD :=
@@ -166,22 +166,48 @@ def tdF160 : TD :=
 /-- `a1 80 30 80 01 01 00 00 00 00 00`: the value { a FALSE } with both lengths indefinite -/
 def encF160 : Bytes := [0xa1, 0x80, 0x30, 0x80, 0x01, 0x01, 0x00, 0, 0, 0, 0]
 
-/-- the two-tag chain puts the type outside the domain of the theorem -/
-theorem F160_outside_domain : inDomain tdF160 0 = false := by decide
+/-- the two-tag chain is inside the domain of the theorems -/
+theorem F160_in_domain : inDomain tdF160 = true := by decide
 
-/-- **finding F160** (ber_check_tags keeps `expect_00_terminators` in a local): presenting the valid
-    encoding at once consumes all 11 octets, feeding `a1 80` first and the rest afterwards ends with RC_OK
-    after 9 octets – the outer end-of-contents octets are never read -/
-theorem F160_chunked_ne_oneshot :
+/-- presenting the valid encoding at once consumes all 11 octets, and so does feeding `a1 80` first and the rest
+    afterwards (before the repair the restarted `ber_check_tags` had forgotten the outer indefinite length: RC_OK
+    after 9 octets) -/
+theorem F160_chunked_eq_oneshot :
     ((berDec tdF160).step .none encF160).2 = (.ok, 11) ∧
-    (feed (berDec tdF160) .none [] 0 [encF160.take 2, encF160.drop 2]).2 = (.ok, 9) := by
+    (feed (berDec tdF160) .none [] 0 [encF160.take 2, encF160.drop 2]).2 = (.ok, 11) := by
   decide
 
-/-- … and a PROPER PREFIX of the valid encoding (its first 9 octets) is answered with RC_OK when fed in the
-    chunks `a1 80 | …`, while one-shot decoding of that prefix correctly wants more -/
-theorem F160_proper_prefix_ok :
+/-- … and a PROPER PREFIX of the valid encoding (its first 9 octets) wants more in one piece and in the chunks
+    `a1 80 | …` (it was answered RC_OK) -/
+theorem F160_proper_prefix_more :
     ((berDec tdF160).step .none (encF160.take 9)).2.1 = .more ∧
-    (feed (berDec tdF160) .none [] 0 [encF160.take 2, (encF160.take 9).drop 2]).2 = (.ok, 9) := by
+    (feed (berDec tdF160) .none [] 0 [encF160.take 2, (encF160.take 9).drop 2]).2.1 = .more := by
+  decide
+
+/-- `a1 07 30 03 01 01 00 00 00`: the outer length 7 contradicts the inner TLV (3 + 2 octets); rejected in one piece
+    and in the chunks `a1 07 | …` (the restarted call had forgotten `limit_len` and accepted) -/
+theorem F160_inconsistent_lengths_rejected :
+    ((berDec tdF160).step .none [0xa1, 0x07, 0x30, 0x03, 0x01, 0x01, 0x00, 0, 0]).2.1 = .fail ∧
+    (feed (berDec tdF160) .none [] 0 [[0xa1, 0x07], [0x30, 0x03, 0x01, 0x01, 0x00, 0, 0]]).2.1 = .fail := by
+  decide
+
+/-! ### constructed strings (finding F58 repaired): segments are universal OCTET STRINGs -/
+
+/-- `G ::= IA5String`, `I ::= [5] IMPLICIT OCTET STRING`, `E ::= [1] EXPLICIT IA5String` as compiled -/
+def tdIA5 : TD := .prim [⟨0, 22⟩] [⟨0, 22⟩] (.ostr false)
+def tdImpOS : TD := .prim [⟨2, 5⟩] [⟨2, 5⟩, ⟨0, 4⟩] (.ostr false)
+def tdExpIA5 : TD := .prim [⟨2, 1⟩, ⟨0, 22⟩] [⟨2, 1⟩, ⟨0, 22⟩] (.ostr false)
+
+/-- the constructed forms X.690 8.7.3.2 / 8.23.6 prescribe (segments tagged UNIVERSAL 4) are accepted, also below an
+    explicit tag; the forms accepted before (segments repeating the string's tag) still are; a segment with another
+    tag is rejected -/
+theorem constructed_string_segments :
+    ((berDec tdIA5).step .none [0x36, 6, 4, 1, 0x61, 4, 1, 0x62]).2 = (.ok, 8) ∧
+    ((berDec tdIA5).step .none [0x36, 6, 0x16, 1, 0x61, 0x16, 1, 0x62]).2 = (.ok, 8) ∧
+    ((berDec tdImpOS).step .none [0xa5, 6, 4, 1, 0x61, 4, 1, 0x62]).2 = (.ok, 8) ∧
+    ((berDec tdImpOS).step .none [0xa5, 6, 0x85, 1, 0x61, 0x85, 1, 0x62]).2 = (.ok, 8) ∧
+    ((berDec tdExpIA5).step .none [0xa1, 8, 0x36, 6, 4, 1, 0x61, 4, 1, 0x62]).2 = (.ok, 10) ∧
+    ((berDec tdIA5).step .none [0x36, 6, 5, 1, 0x61, 4, 1, 0x62]).2.1 = .fail := by
   decide
 
 /-- `S ::= SEQUENCE { a OCTET STRING }` -/
@@ -191,7 +217,7 @@ def tdSeqOS : TD :=
 /-- `30 03 04 05 61`: the inner length 5 does not fit the outer length 3 (invalid) -/
 def badSeqOS : Bytes := [0x30, 0x03, 0x04, 0x05, 0x61]
 
-theorem tdSeqOS_in_domain : inDomain tdSeqOS 0 = true := by decide
+theorem tdSeqOS_in_domain : inDomain tdSeqOS = true := by decide
 
 /-- on an invalid encoding the consumed count reported with RC_FAIL depends on the chunking: 2 when presented
     at once, 4 when the first 4 octets are presented first (the member's RC_WMORE had been ADVANCEd over) -/
